@@ -12,11 +12,18 @@ import (
 func init() {
 	execs["idom"] = func(a []Tok) string {
 		g := graph.MakeBiGraph(graph.IntGraph(a[0].Intss()))
-		return fmtInts(graphalg.IDom(g, a[1].Int()))
+		r := graphalg.IDom(g, a[1].Int())
+		// read after an unrelated computation
+		graphalg.IDom(graph.MakeBiGraph(graph.IntGraph{{1, 2}, {3}, {3}, {}}), 0)
+		return fmtInts(r)
 	}
 	execs["dom"] = func(a []Tok) string {
 		idom := a[0].Ints()
 		t := graphalg.Dom(append([]int(nil), idom...))
+		// the tree is read only after other trees were built (smaller, equal and larger ones)
+		for _, other := range [][]int{{-1, 0, 0, 0}, {1, -1, 1}, append([]int{-1}, make([]int, len(idom)+3)...)} {
+			graphalg.Dom(other)
+		}
 		n := t.NumNodes()
 		ch := make([][]int, n)
 		in := make([][]int, n)
